@@ -6,7 +6,225 @@ indexing semantics: bounded run-time contract against an independent `orth` orac
 import itertools
 from .common import *   # noqa
 
-CONTRACTS = []
+import z3
+from pyvc.nparr import sym_array, SArr
+from pyvc import frontend
+
+F = 'core/_files.py'
+
+
+class SliceBasic(Contract):
+    """base sliceDimensions with basic selectors (integer / slice) on a file with dimensions t, y of ARBITRARY lengths, a
+    rank-2 variable v(t, y), a rank-1 variable w(y) and a rank-1 variable u(t):
+      * every dimension keeps its name; the selected dimension gets the length of the selection (1 for an integer),
+      * every element of every result variable is the element the per-axis selection picks, in order,
+      * variables without the selected dimension are element-wise identical,
+      * attributes are carried over, the result owns fresh buffers and the input is unchanged."""
+    prop = 'C02'
+    target = F + '::PseudoNetCDFFile.sliceDimensions'
+    max_paths = 200
+
+    def __init__(self, kind):
+        self.kind = kind            # 'int' | 'slice' | 'slice-step2' | 'reversed' | 'int+slice'
+        self.name = 'sliceDimensions[%s]' % kind
+
+    def inputs(self, ctx, I):
+        nt, ny = ctx.fresh('nt'), ctx.fresh('ny')
+        self.nt, self.ny = nt, ny
+        mod = frontend.load('core/_variables.py')
+        node, _ = mod.find('PseudoNetCDFVariable')
+        cls = I.classref(mod, node)
+
+        def var(name, dims, shape):
+            a = sym_array(name, shape, 'f')
+            a.cls = cls
+            a.attrs.update(dimensions=dims, _ncattrs=('units',), units='ppb')
+            return a
+        self.v, self.w, self.u = var('v', ('t', 'y'), (nt, ny)), var('w', ('y',), (ny,)), var('u', ('t',), (nt,))
+        self.pre = {k: getattr(self, k).buf.get for k in 'vwu'}
+        f = pnc_file(I, dimensions={'t': dim_obj(I, 't', nt, unlimited=True), 'y': dim_obj(I, 'y', ny)},
+                     variables=dict(v=self.v, w=self.w, u=self.u), attrs=dict(title='source'))
+        self.k = ctx.fresh('k')
+        self.a, self.b = ctx.fresh('a'), ctx.fresh('b')
+        sel = {}
+        if self.kind == 'int':
+            sel['t'] = self.k
+        elif self.kind == 'slice':
+            sel['t'] = slice(self.a, self.b)
+        elif self.kind == 'slice-step2':
+            sel['y'] = slice(self.a, self.b, 2)
+        elif self.kind == 'reversed':
+            sel['y'] = slice(None, None, -1)
+        elif self.kind == 'int+slice':
+            sel['t'] = self.k
+            sel['y'] = slice(self.a, self.b)
+        elif self.kind in ('index-array', 'index-array+slice'):
+            self.m = ctx.fresh('m')
+            self.ix = sym_array('index', (self.m,), 'i')
+            sel['t'] = self.ix
+            if self.kind == 'index-array+slice':
+                sel['y'] = slice(self.a, self.b)
+        self.sel = sel
+        return dict(self=f, dimslices=sel)
+
+    def call_args(self, inp):
+        return [inp['self']], dict(inp['dimslices'])
+
+    def requires(self, inp):
+        r = And(ge(self.nt, 1), ge(self.ny, 1))
+        if self.kind.startswith('index-array'):
+            p = z3.Int('rq_p')
+            r = And(r, ge(self.m, 0), z3.ForAll([p], Implies(And(ge(p, 0), lt(p, self.m)),
+                                                                And(ge(self.ix.get(p), sym.neg(self.nt)), lt(self.ix.get(p), self.nt)))))
+        return r
+
+    def small(self, inp):
+        r = And(le(self.nt, 3), le(self.ny, 3), ge(self.a, -4), le(self.a, 4), ge(self.b, -4), le(self.b, 4))
+        return And(r, le(self.m, 3)) if self.kind.startswith('index-array') else r
+
+    # the selection as the property defines it: index list per axis (start, step, length)
+    def spec_axis(self, d, n):
+        s = self.sel.get(d)
+        if s is None:
+            return 0, 1, n
+        if isinstance(s, SArr):
+            return None, None, s.shape[0]
+        if not isinstance(s, slice):
+            k = sym.ite(lt(s, 0), add(s, n), s)
+            return k, 1, 1
+        step = 1 if s.step is None else s.step
+        clamp = lambda x, lo, hi: sym.max_(lo, sym.min_(hi, x))
+        norm = lambda x: sym.ite(lt(x, 0), add(x, n), x)
+        if step > 0:
+            start = 0 if s.start is None else clamp(norm(s.start), 0, n)
+            stop = n if s.stop is None else clamp(norm(s.stop), 0, n)
+            ln = sym.max_(0, sym.floordiv(add(sub(stop, start), step - 1), step))
+        else:
+            start = sub(n, 1) if s.start is None else clamp(norm(s.start), -1, sub(n, 1))
+            stop = -1 if s.stop is None else clamp(norm(s.stop), -1, sub(n, 1))
+            ln = sym.max_(0, sym.floordiv(add(sub(start, stop), -step - 1), -step))
+        return start, step, ln
+
+    def on_raise(self, inp, exc, I):
+        if 'k' in self.kind or self.kind.startswith('int'):
+            oob = Or(lt(self.k, sym.neg(self.nt)), ge(self.k, self.nt))
+            return [('raises-only-IndexError-for-an-out-of-range-integer (raised %s)' % exc, And(exc == 'IndexError', oob))]
+        return [('does-not-raise (raised %s)' % exc, False)]
+
+    def ensures(self, inp, res, I):
+        f = inp['self']
+        if not hasattr(res, 'attrs') or 'variables' not in res.attrs:
+            return [('returns-file', False)]
+        dims, vs = res.attrs['dimensions'], res.attrs['variables']
+        out = [('is-a-new-file', res is not f), ('dimension-names-in-order', list(dims.keys()) == ['t', 'y']),
+               ('variable-names-in-order', list(vs.keys()) == ['v', 'w', 'u']),
+               ('file-attributes-carried', res.attrs.get('title') == 'source')]
+        if list(dims.keys()) != ['t', 'y'] or list(vs.keys()) != ['v', 'w', 'u']:
+            return out
+        st, pt, lt_ = self.spec_axis('t', self.nt)
+        sy, py, ly = self.spec_axis('y', self.ny)
+        if 'k' in self.kind or self.kind.startswith('int'):
+            out.append(('integer-in-range-on-return', And(ge(self.k, sym.neg(self.nt)), lt(self.k, self.nt))))
+        out += [('length(t)', eq(dims['t'].attrs['_len'], lt_)), ('length(y)', eq(dims['y'].attrs['_len'], ly)),
+                ('unlimited-flags-kept', And(eq(dims['t'].attrs['_unlimited'], True), eq(dims['y'].attrs['_unlimited'], False)))]
+        i, j = z3.Int('i'), z3.Int('j')
+        V, W, U = vs['v'], vs['w'], vs['u']
+        ok = all(isinstance(x, SArr) for x in (V, W, U))
+        out.append(('variables-are-arrays', ok))
+        if not ok:
+            return out
+        if st is None:          # index array (with repeats, any order): the i-th selected step is index[i], counted from the end if negative
+            e = self.ix.get(i)
+            it = sym.ite(lt(e, 0), add(e, self.nt), e)
+        else:
+            it = add(st, mul(i, pt))
+        jy = add(sy, mul(j, py))
+        out += [('v-shape', And(eq(V.shape[0], lt_), eq(V.shape[1], ly)) if V.ndim == 2 else False),
+                ('w-shape', eq(W.shape[0], ly) if W.ndim == 1 else False), ('u-shape', eq(U.shape[0], lt_) if U.ndim == 1 else False)]
+        if V.ndim == 2 and W.ndim == 1 and U.ndim == 1:
+            out += [('v[i,j] = source[t_i, y_j]', Implies(And(ge(i, 0), lt(i, lt_), ge(j, 0), lt(j, ly)), eq(V.get(i, j), self.pre['v']((it, jy))))),
+                    ('w[j] = source[y_j]', Implies(And(ge(j, 0), lt(j, ly)), eq(W.get(j), self.pre['w']((jy,))))),
+                    ('u[i] = source[t_i]', Implies(And(ge(i, 0), lt(i, lt_)), eq(U.get(i), self.pre['u']((it,)))))]
+        out += [('variable-attributes-carried', all(x.attrs.get('units') == 'ppb' and tuple(x.attrs.get('dimensions', ())) == d
+                                                   for x, d in ((V, ('t', 'y')), (W, ('y',)), (U, ('t',))))),
+                ('fresh-buffers', all(x.buf is not y.buf for x in (V, W, U) for y in (self.v, self.w, self.u))),
+                ('input-unchanged', And(Implies(And(ge(i, 0), lt(i, self.nt), ge(j, 0), lt(j, self.ny)), eq(self.v.buf.get((i, j)), self.pre['v']((i, j)))),
+                                        eq(f.attrs['dimensions']['t'].attrs['_len'], self.nt), eq(f.attrs['dimensions']['y'].attrs['_len'], self.ny),
+                                        f.attrs['variables'].get('v') is self.v))]
+        return out
+
+
+    # -- replay on the real function with the counter-model's sizes and selectors ----------------------------------
+    def concretize(self, model, inp):
+        from pyvc.verify import model_value
+        c = dict(kind=self.kind, nt=model_value(model, self.nt), ny=model_value(model, self.ny),
+                 k=model_value(model, self.k), a=model_value(model, self.a), b=model_value(model, self.b))
+        if self.kind.startswith('index-array'):
+            c['index'] = self.ix.model_value(model)
+        return c
+
+    def concretize_without_model(self, inp):
+        return dict(kind=self.kind, nt=4, ny=5, k=-2, a=-4, b=4, index=dict(values=[3, -1, 0, 3]))
+
+    def replay(self, c):
+        import numpy as np
+        P = import_real()
+        nt, ny = int(c['nt']), int(c['ny'])
+        if not (1 <= nt <= 40 and 1 <= ny <= 40):
+            return None
+        kind = c['kind']
+        sel = {}
+        if kind in ('int', 'int+slice'):
+            sel['t'] = int(c['k'])
+        if kind == 'slice':
+            sel['t'] = slice(int(c['a']), int(c['b']))
+        if kind == 'slice-step2':
+            sel['y'] = slice(int(c['a']), int(c['b']), 2)
+        if kind == 'reversed':
+            sel['y'] = slice(None, None, -1)
+        if kind in ('int+slice', 'index-array+slice'):
+            sel['y'] = slice(int(c['a']), int(c['b']))
+        if kind.startswith('index-array'):
+            vals = (c.get('index') or {}).get('values')
+            if vals is None:
+                return None
+            sel['t'] = [int(x) for x in vals]
+        f = P.PseudoNetCDFFile()
+        f.createDimension('t', nt).setunlimited(True)
+        f.createDimension('y', ny)
+        f.title = 'source'
+        rng = np.random.default_rng(2)
+        data = dict(v=rng.random((nt, ny)), w=rng.random(ny), u=rng.random(nt))
+        for k_, d in (('v', ('t', 'y')), ('w', ('y',)), ('u', ('t',))):
+            f.createVariable(k_, 'd', d, values=data[k_].copy(), units='ppb')
+        try:
+            g = f.sliceDimensions(**{k_: (np.array(v) if isinstance(v, list) else v) for k_, v in sel.items()})
+        except IndexError as e:
+            oob = 't' in sel and not isinstance(sel['t'], (slice, list)) and not (-nt <= sel['t'] < nt)
+            return oob, dict(raised='IndexError', selectors=repr(sel), nt=nt, ny=ny)
+        except Exception as e:
+            return False, dict(raised=type(e).__name__, message=str(e)[:200], selectors=repr(sel), nt=nt, ny=ny)
+        bad = []
+        for k_, dims in (('v', ('t', 'y')), ('w', ('y',)), ('u', ('t',))):
+            exp = orth(data[k_], dims, sel)
+            got = np.asarray(g.variables[k_][...])
+            if got.shape != exp.shape or not np.array_equal(got, np.asarray(exp)):
+                bad.append('%s: shape %r expected %r' % (k_, got.shape, exp.shape))
+            if getattr(g.variables[k_], 'units', None) != 'ppb' or tuple(g.variables[k_].dimensions) != dims:
+                bad.append('%s: attributes/dimensions' % k_)
+            if not np.array_equal(np.asarray(f.variables[k_][...]), data[k_]):
+                bad.append('%s: input modified' % k_)
+        for d in ('t', 'y'):
+            n = {'t': nt, 'y': ny}[d]
+            explen = len(norm_sel(sel[d], n)[0]) if d in sel else n
+            if len(g.dimensions[d]) != explen:
+                bad.append('len(%s)=%d expected %d' % (d, len(g.dimensions[d]), explen))
+        if not g.dimensions['t'].isunlimited() or g.dimensions['y'].isunlimited() or getattr(g, 'title', None) != 'source':
+            bad.append('flags/attributes')
+        return (not bad), dict(selectors=repr(sel), nt=nt, ny=ny, failed=bad)
+
+
+CONTRACTS = [SliceBasic(k) for k in ('int', 'slice', 'slice-step2', 'reversed', 'int+slice', 'index-array', 'index-array+slice')]
 
 
 def norm_sel(sel, n):
@@ -178,10 +396,15 @@ def bounded_replay(p):
 
 
 META = dict(
-    level='exploration',
-    technique='bounded run-time contract (orthogonal-selection oracle) on the real sliceDimensions; no deductive obligation can state numpy indexing without modelling numpy',
-    text='Element equality with the orthogonal hyperslab is numpy indexing semantics; it is checked at run time on the real function '
-         'against an independent per-axis numpy.take oracle over all single-axis and two-axis selector combinations of the stated bound.',
-    note='bounded only; never counted as proved. numpy.take / numpy.ma are the oracle.',
-    assumptions=['numpy.take/numpy.ma semantics (oracle)'],
-    explanation='')
+    level='other',
+    technique='base sliceDimensions proved by pyvc for integer / slice / one-index-array selectors on files of arbitrary size (numpy basic indexing as views, '
+              'one index array among slices as trusted model); index lists on several axes, masks and the string form by bounded run-time contract (orthogonal-selection oracle)',
+    text='Proved for dimensions of ANY length and any integer / slice bounds (step 1, 2, -1) / index array of any length with repeats and negative entries, on a file with a '
+         'rank-2 and two rank-1 variables: dimension lengths are the selection lengths (1 for an integer), every element of every variable is the element the per-axis '
+         'selection picks, in order, variables without the selected dimension are identical, attributes and unlimited flags carried, fresh buffers, input unchanged, and only '
+         'an out-of-range integer raises (IndexError). Bounded: all single-axis and two-axis selector combinations incl. zipped index lists, masks, against an independent numpy.take oracle.',
+    note='numpy slicing (views), arange/size and the single-index-array gather are trusted models (pyvc/nparr.py); the zipped selection (several index lists), masked variables, '
+         'rank > 2 and the ioapi / slice_dim wrappers are bounded only.',
+    assumptions=['numpy basic indexing = views with start/step/length per axis (slice.indices semantics)', 'numpy indexing with one 1-D integer array among slices keeps the axis in place',
+                 'numpy.take/numpy.ma semantics (oracle of the bounded part)'],
+    explanation='mixed: discharged obligations for sliceDimensions with basic selectors / one index array + bounded oracle comparison for everything else')
